@@ -246,9 +246,11 @@ impl Ctx {
     /// that a hard crash (SIGSEGV, sanitizer abort) can be attributed.
     #[inline]
     pub fn crumb(&mut self, f: impl FnOnce() -> String) {
-        if let Some(p) = &self.breadcrumb {
+        if self.breadcrumb.is_some() {
             self.crumb_counter += 1;
-            let _ = std::fs::write(p, f());
+            // same file and format as `util::crumb` (the monitored driver parses it); a free-text crumb cannot be
+            // replayed, it only says where a crash happened
+            let _ = crumb(|| serde_json::json!({"module": "-", "case": {"note": f()}}).to_string());
         }
     }
 }
